@@ -182,6 +182,49 @@ def run(F, R, tier):
             if is_call(n) and (n.get("fn") or "").endswith("GM2_slha_io::convert_to"):
                 R.ok("K1b", "%s -> convert_to<%s>" % (f["name"].split("::")[-1], n.get("t")), F.loc(f, n))
 
+    # ---------------- K5m: matrix / vector block readers write only the named entries -------------
+    R.rule("K5m", "read_matrix / read_vector touch their output only through element assignments indexed by the parsed "
+                  "keys of a data line (no whole-object write such as setZero, fill or assignment): entries a block does "
+                  "not name keep the value given by earlier blocks", 2)
+    for f in sorted(F.functions.values(), key=lambda g: (g["name"], g["line"], g.get("mg") or "")):
+        short = f["name"].split("::")[-1]
+        if short not in ("read_matrix", "read_vector") or len(f["params"]) != 2 or not f.get("body"):
+            continue
+        outp = f["params"][1]
+        S_ = Struct(f)
+        bad = []
+        n_assign = 0
+        for n in walk(f["body"]):
+            if n.get("k") != "DeclRefExpr" or n.get("id") != outp["id"]:
+                continue
+            # climb to the enclosing call / operator
+            p_ = S_.parent(n)
+            while p_ is not None and p_.get("k") in ("ImplicitCastExpr", "ParenExpr", "MemberExpr"):
+                n, p_ = p_, S_.parent(p_)
+            k_ = p_.get("k") if p_ is not None else None
+            if k_ == "CXXMemberCallExpr":
+                mname = str(p_.get("fn", "")).split("::")[-1]
+                if mname in ("rows", "cols", "size"):
+                    continue
+                bad.append("%s() at line %s" % (mname, p_.get("l")))
+            elif k_ == "CXXOperatorCallExpr" and p_.get("op") == "()":
+                gp = S_.parent(p_)
+                while gp is not None and gp.get("k") in ("ImplicitCastExpr", "ParenExpr"):
+                    p_, gp = gp, S_.parent(gp)
+                if gp is not None and gp.get("k") == "BinaryOperator" and gp.get("op") == "=" and strip_all(gp["c"][0]) is strip_all(p_):
+                    n_assign += 1
+                elif gp is not None and gp.get("k") == "CXXOperatorCallExpr" and gp.get("op") == "=" and len(gp.get("c", [])) >= 2 \
+                        and strip_all(gp["c"][1]) is strip_all(p_):
+                    n_assign += 1          # std::complex<double>::operator=(double) on the element
+                else:
+                    bad.append("element access that is not a plain assignment at line %s" % p_.get("l"))
+            else:
+                bad.append("use in %s at line %s" % (k_, (p_ or {}).get("l")))
+        R.check("K5m", not bad and n_assign == 1, "%s<%s>: %d element assignment(s), no whole-object write"
+                % (short, (outp["t"] or "")[-40:], n_assign), F.loc(f),
+                "%s writes its output other than entry by entry from the data lines: %s" % (short, "; ".join(bad) or "no element assignment found"),
+                key="K5m|%s|%s" % (short, outp["t"]))
+
     # ---------------- K3 / K5 tables ----------------------------------------------------------
     procs = [f for f in F.functions.values() if re.search(r"::process_\w+_tuple$", f["name"])]
     R.rule("K3", "each key of each process_*_tuple switch sets exactly the documented parameter with the documented "
